@@ -250,7 +250,7 @@ func (w *world) verify(s spec, out []byte) bool {
 		if !m.Sig.HasCreated || m.Sig.Created != uint32(w.now.Unix()) {
 			return bad("signature creation time is not config.Time", map[string]any{"created": m.Sig.Created})
 		}
-		c.Outcome("signed with " + s.signer + "/" + hashNameOfID(m.Sig.HashAlgo))
+		c.Outcome("signature hash " + hashNameOfID(m.Sig.HashAlgo))
 	}
 	if enc {
 		c.Outcome(fmt.Sprintf("encrypted with cipher %d", m.Cipher))
@@ -358,7 +358,7 @@ func (w *world) verifyDetached(s spec, out []byte, bad func(string, map[string]a
 			}
 		}
 	}
-	c.Outcome("detached " + s.signer + "/" + hashName[s.hash])
+	c.Outcome("detached signature verified (package + reference)")
 	return true
 }
 
